@@ -788,7 +788,7 @@ fn sched_run(prop: &str, run: usize, seed: u64) -> Vec<J> {
     let mut g = Gen::new(seed, Knobs { p_c: 0.08, p_x: 0.05, bidir: true, max_stmts: 10, max_virtuals: 1, allow_random: draws, p_reset: if draws { 0.15 } else { 0.02 }, p_device: if run % 2 == 0 { 0.0 } else { 0.3 }, ..Knobs::control_flow() });
     if run % 2 == 0 {
         // static tests may declare virtual signals too, as long as these read nothing either (constant expressions, below)
-        g.k.max_virtuals = if run % 6 == 0 { 2 } else { 0 };
+        g.k.max_virtuals = if run % 6 == 0 || run % 10 == 8 { 2 } else { 0 };
     }
     let plan = g.plan();
     let mut prog = g.program(&plan);
@@ -797,7 +797,13 @@ fn sched_run(prop: &str, run: usize, seed: u64) -> Vec<J> {
             for s in stmts {
                 match s {
                     // (now and then one that cannot be evaluated - a division by zero: an error item at every checked row, static or not)
-                    Stmt::Declare { e, .. } => *e = Expr::bin(["+", "*", "<<", "/", "%"].choose(rng).unwrap(), Expr::Num(rng.gen_range(0..9)), Expr::Num(rng.gen_range(0..5))),
+                    Stmt::Declare { e, .. } => {
+                        *e = if rng.gen_bool(0.35) {
+                            Expr::bin(["/", "%"].choose(rng).unwrap(), Expr::Num(rng.gen_range(0..9)), Expr::bin("-", Expr::Num(2), Expr::Num(2)))
+                        } else {
+                            Expr::bin(["+", "*", "<<", "/", "%"].choose(rng).unwrap(), Expr::Num(rng.gen_range(0..9)), Expr::Num(rng.gen_range(1..5)))
+                        }
+                    }
                     Stmt::Loop { body, .. } | Stmt::While { body, .. } => constant_declares(body, rng),
                     _ => {}
                 }
